@@ -6,7 +6,7 @@ hooks_note = ("No hook is committed in /repo. Every check instruments a copy of 
 claimed = {
  "C14": dict(level="exploration", design="§2", technique="deterministic simulation: seeded one-runner scheduler over real goroutines + Go race detector + serial-clone oracle + lock-model deadlock verdicts",
    text="Seeded search over schedules of 2-6 (thorough: 2-8) real goroutines querying shared, overlapping Loop/Polygon/ShapeIndex objects (index unbuilt, built, or stale; index shapes may be the very objects queried directly, and member loops of a shared polygon / shapes of a shared index are questioned directly too; a second batch runs one burst per fresh, cold process) on a replayable one-runner scheduler whose hand-off is invisible to the race detector; every run is checked for data races, serial-equivalent answers, deadlock, bounded progress and panics. Exploration, not proof: a clean batch is evidence.",
-   note="Trusted: the Go race detector; the instrumenter's yield placement; sequentially consistent interleavings only (preemption at sync statements and s2 function entries). The serial oracle is the library itself on a clone."),
+   note="Trusted: the Go race detector; the instrumenter's yield placement; sequentially consistent interleavings only (preemption at sync statements and s2 function entries). The lock model covers sync.Mutex/RWMutex/Once and sync.Cond; a dropped-value channel receive and a plain-value send are polled; sources that park goroutines in any other way (select without default, receive with a value) make a stalled worker an infrastructure failure (exit 2), not a verdict. The serial oracle is the library itself on a clone."),
  "C13": dict(level="exploration", design="§3", technique="deterministic simulation: seeded operation histories on long-lived objects vs fresh-object reference; lock model decides self-deadlock",
    text="Seeded search over operation histories (add/build/reset/invert/normalize/encode-decode/query; reuse of the three query object types, of distance targets and of regions; option changes on live queries; per-run workload mix) run as a simulated task; each answer is compared with the same query on fresh objects reaching the same state by the shortest sequence (three reference variants; one-sided oracle for the conservative cell predicates); hangs are decided by the lock model and a step bound, panics are caught.",
    note="Trusted: the reference is the same library on fresh objects, so only history dependence is decided. Structure-dependent conservative predicates are compared only on identical cell lists."),
